@@ -3,6 +3,7 @@ from core import strip, is_field, key_mentions, order_ge
 from facts import AnalysisBroken
 from rules import (check_init, nodeset, ev, Unevaluable, forced_edges, atom_from, reach, atomic_ops, ret_const, is_var_load)
 from props import c01
+from props import deps
 import stale
 
 EXPLANATION = (
@@ -30,6 +31,8 @@ def run(ctx):
     c01.core_dependency(ctx, P, "core.dep", ('fiber_manager_wait_in_mpmc_queue', 'fiber_manager_wake_from_mpmc_queue', 'fiber_semaphore_wait', 'fiber_semaphore_post', 'fiber_semaphore_post_internal'),
                         "the semaphore's sleep/wake path (wait_in_mpmc_queue / wake_from_mpmc_queue)",
                         'a unit handed to a waiter that never runs is lost')
+    deps.depend(ctx, P, 'C13', 'queue.dep', "the semaphore's waiter queue (mpmc_fifo with hazard pointers)",
+                'a queue that starts from a dirty dummy node, or hands one waiter to two posts, loses a post or admits a fiber that holds no unit', None)
     f = P.fn("fiber_semaphore_wait")
     o = ctx.ob("wait", f, "one atomic fetch-sub of 1 (acq_rel or stronger); returns at once exactly when the old value was >= 1, otherwise parks "
                "on this semaphore's waiters through fiber_manager_wait_in_mpmc_queue",
